@@ -34,6 +34,8 @@ pub fn corpus(extras: bool, thorough: bool) -> Vec<G> {
         // a bare popping matcher directly under ?, *, | after two pushes, then a reader of the stack
         "PUSH(x) ~ PUSH(\"b\") ~ POP? ~ PEEK ~ ANY?", "PUSH(x) ~ PUSH(\"b\") ~ (POP | x) ~ POP? ~ PEEK_ALL?", "PUSH(x) ~ PUSH(\"b\") ~ POP* ~ PEEK_ALL? ~ ANY*", "PUSH(x) ~ PUSH(\"b\") ~ POP_ALL? ~ PEEK[..]? ~ ANY*",
         "PUSH(x) ~ PUSH(\"b\") ~ (POP_ALL | \"b\") ~ DROP? ~ PEEK?", "SOI ~ x* ~ EOI", "(x ~ \"b\") | x", "(x ~ \"b\")* ~ x", "PUSH(x) ~ (PEEK | x)*", "(!(\"a\" | \"b\") ~ ANY)*", "x{2,3}",
+        // equal and zero bounds, the skipper shape under +, mixed-case insensitive literal
+        "x{2,2} ~ \"a\"?", "x{0,2} ~ \"b\"?", "(!\"b\" ~ ANY)+ ~ \"b\"?", "^\"aB\" ~ x?",
     ];
     if extras {
         forms.extend(["(#t = x) ~ x", "#t = (x ~ x)", "(#t = x)*", "#t = x? ~ \"a\"", "x ~ (#t = \"a\"?)", "(#t = x | #u = \"b\")+", "PUSH_LITERAL(\"a\") ~ x ~ POP", "#t = (x+)", "x ~ #t = (\"b\"*) ~ x", "(#t = x ~ \"b\")?", "#t = x*", "#t = (x ~ \"b\")* ~ x?", "\"b\"? ~ #t = x* ~ #u = x?", "#t = (x | \"b\")*"]);
